@@ -49,13 +49,25 @@ def evaluate(model, drv, lines, env=None):
             res.append(r)
             continue
         toks, alloc, stats = pr
+        r["stats"] = stats
+        r["trace"] = toks
+        if f[0] == "sc":
+            ml, expw = se_trace.c_translate(toks)
+            r["client"] = True
+            r["expect_windows"] = expw
+            r["expect"] = [t for w in expw for t in w]
+            r["model_line"] = ml
+            r["bad"], r["facts"] = se_trace.c_oracles(toks, stats)
+            mlines.append(ml)
+            alines.append("attrace " + " ".join(alloc))
+            llines.append("selog")
+            res.append(r)
+            continue
         timeout, maxidle = int(f[2]), int(f[3])
         ml, exp, _ = se_trace.translate(toks, timeout, maxidle)
         r["expect"] = exp
         r["model_line"] = ml
         r["bad"], r["facts"] = se_trace.oracles(toks, timeout, maxidle, stats)
-        r["stats"] = stats
-        r["trace"] = toks
         mlines.append(ml)
         alines.append("attrace " + " ".join(alloc))
         llines.append("selog " + " ".join(se_trace.event_log_tokens(toks)))
@@ -69,6 +81,32 @@ def evaluate(model, drv, lines, env=None):
         r["model_out"] = m
         r["alloc"] = a
         parts = m.split(" | ")
+        if r.get("client"):
+            modw = se_trace.c_split_model(parts[0])
+            expw = r["expect_windows"]
+            # releases inside coap_free_context are compared as a set
+            mt = []
+            for i, w in enumerate(modw):
+                if i < len(expw) and expw[i] == sorted(expw[i]) and any(t.startswith("CF:") for t in w) \
+                        and sorted(w) == expw[i]:
+                    w = sorted(w)
+                mt.extend(w)
+            r["tie_diff"] = se_trace.first_diff(r["expect"], mt)
+            r["model_tokens"] = mt
+            r["model_tail"] = parts[1] if len(parts) > 1 else ""
+            r["mon_ok"] = r["mon_closed"] = True
+            fa = r["facts"]
+            if fa.get("extra_app_refs_at_free", 0) == 0:
+                if a != "clean":
+                    r["bad"].append(("alloc", "allocation trace verdict: " + a[:120] + " live types "
+                                     + r["stats"].get("types", "?")))
+                r["known"] = None
+            else:
+                r["known"] = K_TEARDOWN_REF
+                fa["leaked_sessions"] = fa.get("left")
+                if not a.startswith("leak") and a != "clean":
+                    r["bad"].append(("alloc", "allocation trace verdict: " + a[:120]))
+            continue
         mt = parts[0].split()
         r["tie_diff"] = se_trace.first_diff(r["expect"], mt)
         r["model_tokens"] = mt
@@ -126,7 +164,8 @@ def replay_text(r, shrunk=None):
 def shrink(model, drv, r, env=None):
     """delta-debug the op list while the same kind of failure persists"""
     f = r["line"].split()
-    prefix, ops = f[:4], f[4:]
+    npre = 2 if f[0] == "sc" else 4
+    prefix, ops = f[:npre], f[npre:]
     tags = set(t for t, _ in r["bad"])
     crash = bool(r["crash"])
     tied = r.get("tie_diff", -1) >= 0
@@ -214,8 +253,17 @@ class Sink:
         for res, m in zip(results, metas):
             fa = res["facts"]
             held = any(t.startswith("W[") and t != "W[]" for t in res.get("trace", []))
-            nontriv = (fa.get("sessions", 0) >= 2 and
-                       (fa.get("scan_frees", 0) + fa.get("evictions", 0) > 0 or held))
+            if res.get("client"):
+                nontriv = fa.get("sessions", 0) >= 1 and fa.get("lib_refs", 0) > 0 and \
+                    fa.get("freed_on_release", 0) + fa.get("freed_at_teardown", 0) > 0
+                tot = run.cov.setdefault("client_totals", {})
+                for k in ("sessions", "freed_on_release", "freed_at_teardown", "lib_refs"):
+                    tot[k] = tot.get(k, 0) + fa.get(k, 0)
+                if m.get("kind") == "client":
+                    run.hist("client_slots", m["slots"])
+            else:
+                nontriv = (fa.get("sessions", 0) >= 2 and
+                           (fa.get("scan_frees", 0) + fa.get("evictions", 0) > 0 or held))
             run.count(res["line"], nontriv)
             run.hist("kind", m.get("kind"))
             if m.get("kind") == "generated":
@@ -224,9 +272,10 @@ class Sink:
                 run.hist("max_idle_sessions", m["maxidle"])
                 run.hist("focus", m["focus"])
                 run.hist("teardown", "explicit" if m["explicit_free"] else "at end")
-            tot = run.cov.setdefault("totals", {})
-            for k in ("scan_frees", "evictions", "teardown_frees", "sessions", "lib_refs", "app_refs"):
-                tot[k] = tot.get(k, 0) + fa.get(k, 0)
+            if not res.get("client"):
+                tot = run.cov.setdefault("totals", {})
+                for k in ("scan_frees", "evictions", "teardown_frees", "sessions", "lib_refs", "app_refs"):
+                    tot[k] = tot.get(k, 0) + fa.get(k, 0)
             if res.get("known") and not res["crash"]:
                 f = run.match_known(lambda k: k.get("id") == K_TEARDOWN_REF)
                 if f:
@@ -242,10 +291,14 @@ class Sink:
             if tied:
                 self.tie_bad += 1
             if not failing and not tied:
-                if len(run.cov["samples"]) < 5 and nontriv and m.get("kind") != "sweep":
+                if nontriv and m.get("kind") in ("generated", "boundary") and \
+                        len(run.cov["samples"]) < 4:
                     run.sample({"case": res["line"][:300], "events": " ".join(
                         se_trace.event_log_tokens(res["trace"]))[:300],
                         "alloc_verdict": res["alloc"]})
+                elif nontriv and m.get("kind") == "client" and len(run.cov["samples"]) < 6:
+                    run.sample({"case": res["line"][:300], "events": " ".join(res["expect"])[:300],
+                                "alloc_verdict": res["alloc"]})
                 continue
             key = "crash" if res["crash"] else (res["bad"][0][0] if res["bad"] else "tie")
             if key in self.reported or self.nviol >= 4:
@@ -266,9 +319,11 @@ class Sink:
                 run.violation("C12 violated on the implementation: " + describe(rr),
                               replay_text(rr, None if rr is res else small), tag=key)
             else:
-                run.violation("correspondence Sessions.se_step vs libcoap broken (theorems "
-                              "C12_functional_injective / C12_reclaim_rule no longer describe the "
-                              "code): first difference at token %d" % rr["tie_diff"],
+                run.violation("correspondence %s vs libcoap broken (theorems %s no longer describe "
+                              "the code): first difference at token %d"
+                              % (("Client.sec_step", "C12_client_*") if rr.get("client") else
+                                 ("Sessions.se_step", "C12_functional_injective / C12_reclaim_rule"))
+                              + (rr["tie_diff"],),
                               replay_text(rr, None if rr is res else small), tag="tie",
                               no_input=True)
 
@@ -309,6 +364,13 @@ def main(run):
             yield ln, m
         for ln in sweep_lines(run.tier):
             yield ln, {"kind": "sweep"}
+        for ln in gen_sessions.client_boundary_cases():
+            yield ln, {"kind": "client-boundary"}
+        rc = tie.rng_for(run, "c12-client")
+        for i in range(400 if run.tier == "quick" else 12000):
+            ln, m = gen_sessions.gen_client_history(rc)
+            m["kind"] = "client"
+            yield ln, m
 
     chunk_l, chunk_m = [], []
     nsweep = 0
@@ -330,8 +392,12 @@ def main(run):
     nas = 250 if run.tier == "quick" else 6000
     as_lines = list(corpus) + gen_sessions.boundary_cases()
     ra = tie.rng_for(run, "c12-asan")
+    as_lines += gen_sessions.client_boundary_cases()
     while len(as_lines) < nas:
-        ln, m = gen_sessions.gen_history(ra, stale_etag=True)
+        if len(as_lines) % 5 == 4:
+            ln, m = gen_sessions.gen_client_history(ra)
+        else:
+            ln, m = gen_sessions.gen_history(ra, stale_etag=True)
         if m["explicit_free"] and "relall free" not in ln:
             continue      # the known teardown-with-reference leak would only trip LeakSanitizer
         as_lines.append(ln)
